@@ -525,7 +525,11 @@ static int trx_ctrl_read_cb(struct osmo_fd *ofd, unsigned int what)
 	}
 
 	/* Check for response code */
-	sscanf(p + 1, "%d", &resp);
+	if (p == NULL || sscanf(p + 1, "%d", &resp) != 1) {
+		LOGPFSML(trx->fi, (tcm->critical) ? LOGL_FATAL : LOGL_ERROR,
+			"Response message '%s' has no status code\n", buf);
+		goto rsp_error;
+	}
 	if (resp) {
 		LOGPFSML(trx->fi, (tcm->critical) ? LOGL_FATAL : LOGL_ERROR,
 			"Transceiver rejected TRX command with "
